@@ -207,6 +207,12 @@ def run_rules(mod, ctx: Ctx, only: Optional[set[str]] = None) -> None:
         n_canon = canon_repo(ctx.repo)
         rep = normalise_repo(ctx.repo, ctx.keep_names)
         n_canon += canon_repo(ctx.repo)
+        if os.environ.get("SA_NO_UNROLL") != "1":
+            from .canon import unroll_name_loops_repo
+
+            n_un = unroll_name_loops_repo(ctx.repo)
+            if n_un:
+                ctx.note(f"loops over literal name tuples unrolled (sa/canon.py C7): {n_un}")
         if os.environ.get("SA_NO_FOLD") != "1":
             from .canon import fold_tables_repo
 
